@@ -57,6 +57,8 @@ def generate(family, rng, tier, pipelined=False, w_first=False):
     big = rng.random() < 0.25
     nm = 1 if kind in ("p2p", "decoder") else rng.choice([1, 2, 2, 3] if big else [1, 2, 2])
     ns = 1 if kind in ("p2p", "arbiter") else rng.choice([1, 2, 2, 3] if big else [1, 2, 2])
+    if kind in ("shared", "decoder") and rng.random() < 0.1:
+        ns = rng.choice([4, 5, 7])          # (the decoder's reductions over the slaves see more than three operands now and then)
     wins, used = [], set()
     for i in range(ns):
         while True:
